@@ -64,8 +64,20 @@ func (c c15Config) marker() string {
 	return "?"
 }
 
-func (c c15Config) doPanic() {
-	switch c.Value {
+func (c c15Config) doPanic() { c15PanicWith(c.Value) }
+
+func c15OtherKind(v string) string {
+	kinds := []string{"string", "error", "runtime", "struct", "abort", "nil-error-pointer", "panicking-stringer"}
+	for i, k := range kinds {
+		if k == v {
+			return kinds[(i+1)%len(kinds)]
+		}
+	}
+	return "error"
+}
+
+func c15PanicWith(value string) {
+	switch value {
 	case "string":
 		panic("MARK-string")
 	case "error":
@@ -126,6 +138,9 @@ func c15Build(c c15Config) *c15World {
 					_, _ = ctx.ResponseWriter().Write([]byte("partial"))
 				case "after-next":
 					ctx.Next()
+				}
+				if k := ctx.Request().Header.Get("X-Kind"); k != "" {
+					c15PanicWith(k) // this request panics with another kind of value than the configured one
 				}
 				c.doPanic()
 			}
@@ -212,13 +227,17 @@ type c15Resp struct {
 	events  string
 }
 
-func (w *c15World) serve(path string) c15Resp {
+func (w *c15World) serve(path string, kind ...string) c15Resp {
 	w.events = nil
 	spy := &c01Spy{hdr: http.Header{}}
 	var esc interface{}
+	req := newReq("GET", path)
+	if len(kind) > 0 {
+		req.Header.Set("X-Kind", kind[0])
+	}
 	func() {
 		defer func() { esc = recover() }()
-		w.f.ServeHTTP(spy, newReq("GET", path))
+		w.f.ServeHTTP(spy, req)
 	}()
 	return c15Resp{spy.code, spy.body.String(), spy.hdr.Get("Content-Type"), esc, strings.Join(w.events, ",")}
 }
@@ -289,6 +308,14 @@ func c15Judge(c c15Config, seq string) (bad, kind string) {
 			if b, k := c15CheckPanic(c, rs); b != "" {
 				return fmt.Sprintf("request %d (panicking): %s", i+1, b), k
 			}
+		} else if ch == 'Q' {
+			// a panicking request whose value is of another kind than the previous ones
+			c2 := c
+			c2.Value = c15OtherKind(c.Value)
+			rs := w.serve("/p", c2.Value)
+			if b, k := c15CheckPanic(c2, rs); b != "" {
+				return fmt.Sprintf("request %d (panicking with a %s value after %q): %s", i+1, c2.Value, seq[:i], b), k + "/after-other-kind"
+			}
 		} else {
 			rs := w.serve("/n")
 			if rs != fresh {
@@ -339,9 +366,9 @@ func c15Run(r *core.Run) {
 		r.SetBudget(10 * time.Minute)
 	}
 	cfgs := c15Configs(r.Thorough())
-	seqs := []string{"P", "PN", "NP", "PP", "PNP", "PPN", "NPN", "PPP", "NNP", "PNN"}
+	seqs := []string{"P", "PN", "NP", "PP", "PNP", "PPN", "NPN", "PPP", "NNP", "PNN", "PQ", "QP", "PQP", "QQ", "PQN"}
 	if !r.Thorough() {
-		seqs = []string{"P", "PN", "PPN", "NPN", "PNP"}
+		seqs = []string{"P", "PN", "PPN", "NPN", "PNP", "PQ", "QPQ"}
 	}
 	r.Rule = "engine E: stacks of 2..4 handlers with Recovery at every position, logging middleware before it, pass-through handlers (with and without their own Next()) between it and the panicking handler at every later position; panic phase {before any write, after a status, after body bytes, after Next() returned, unresolved dependency} x value {string, error, runtime error, struct, http.ErrAbortHandler, typed-nil error pointer, value whose String() panics} x registration style {application middleware, route handlers, middleware+group} x environment {development, production, test} x request sequences over {panicking, normal}; oracle: nothing escapes, status 500 iff nothing had been sent, detail in the body iff development, outer middleware completes, normal requests equal a fresh instance; non-trivial = sequence with >=2 requests or a panic after something was written"
 	r.Bounds["configs"] = len(cfgs)
@@ -360,6 +387,9 @@ func c15Run(r *core.Run) {
 				l.States++
 				for _, sq := range seqs {
 					if strings.Contains(sq, "N") && !c.hasNormalRoute() {
+						continue
+					}
+					if strings.Contains(sq, "Q") && c.Phase == "unresolved-dependency" {
 						continue
 					}
 					l.Evals++
